@@ -581,12 +581,42 @@ func (in *interp) assign(x *ast.AssignStmt, s *State) []*State {
 	}
 	vals := make([]Val, len(x.Rhs))
 	for i, r := range x.Rhs {
+		if t := in.recvText(r, s); t == "yylex.(*Parser)" || t == "yylex.(*Parser).builder" {
+			if _, isId := x.Lhs[i].(*ast.Ident); isId {
+				vals[i] = Opq{"expr:" + t} // a local name for the parser / the position builder
+				continue
+			}
+		}
 		vals[i] = in.eval(r, s)
 	}
 	for i, l := range x.Lhs {
 		in.store(l, x.Rhs[i], vals[i], s)
 	}
 	return []*State{s}
+}
+
+// recvText renders the receiver of a call with locals that merely name the parser or its
+// position builder (prs := yylex.(*Parser); b := prs.builder) replaced by what they stand for.
+func (in *interp) recvText(e ast.Expr, s *State) string {
+	e = unparen(e)
+	switch x := e.(type) {
+	case *ast.Ident:
+		if o := objOf(in.l.info(), x); o != nil {
+			if v, ok := s.env[o].(Opq); ok && strings.HasPrefix(v.What, "expr:") {
+				return v.What[5:]
+			}
+		}
+	case *ast.SelectorExpr:
+		if _, isPkg := in.l.info().Uses[identOrNil(x.X)].(*types.PkgName); !isPkg {
+			return in.recvText(x.X, s) + "." + x.Sel.Name
+		}
+	}
+	return types.ExprString(e)
+}
+
+func identOrNil(e ast.Expr) *ast.Ident {
+	id, _ := unparen(e).(*ast.Ident)
+	return id
 }
 
 func objOf(info *types.Info, e ast.Expr) types.Object {
@@ -1045,7 +1075,7 @@ func (in *interp) call(c *ast.CallExpr, s *State) Val {
 		}
 	}
 	if se, ok := fun.(*ast.SelectorExpr); ok {
-		recv := types.ExprString(unparen(se.X))
+		recv := in.recvText(se.X, s)
 		switch {
 		case recv == "yylex.(*Parser).builder" && strings.HasPrefix(se.Sel.Name, "New") && strings.HasSuffix(se.Sel.Name, "Position"):
 			p := PosV{Method: se.Sel.Name, At: c.Pos()}
